@@ -26,6 +26,28 @@ let c14_case = function
 let c14_model c = let (cap, ops) = c14_case c in c14_obs (irun (inew cap) ops)
 let c14_spec c = let (cap, ops) = c14_case c in c14_obs (arun cap [] ops)
 
+(* ---------------- C11 ---------------- *)
+(* case: (c11 strict enc (prefix ...) reg decoded escaped) ; obs: ((path P) (match b) (serve b)) or (panic) *)
+let outc f = function Ok x -> f x | Panic -> A "panic"
+let c11_case = function
+  | L [A "c11"; st; enc; L gs; reg; dec; esc] -> (bool st, bool enc, List.map str gs, str reg, str dec, str esc)
+  | x -> failwith ("c11: bad case " ^ to_string x)
+let c11_model c =
+  let (st, enc, gs, reg, dec, esc) = c11_case c in
+  match reg_path st gs reg with
+  | Panic -> A "panic"
+  | Ok p ->
+    let hit q = match format_path st q with Ok k -> sbool (str_eqb k p) | Panic -> A "panic" in
+    L [L [A "path"; sstr p]; L [A "match"; hit dec]; L [A "serve"; hit (request_path enc dec esc)]]
+(* spec: closed form "/" ++ core, independent of the transcription of formatPath *)
+let c11_spec c =
+  let (st, enc, gs, reg, dec, esc) = c11_case c in
+  let sl = n_of_int 47 in
+  let nf s = sl :: core st s in
+  let p = match gs with [] -> nf reg | _ -> nf (List.concat (List.map nf gs) @ nf reg) in
+  let hit q = sbool (str_eqb (nf q) p) in
+  L [L [A "path"; sstr p]; L [A "match"; hit dec]; L [A "serve"; hit (if enc then esc else dec)]]
+
 (* judge by spec equality: the observation must be exactly what the spec function yields *)
 let judge_eq spec c obs =
   let e = to_string (spec c) in
@@ -33,9 +55,11 @@ let judge_eq spec c obs =
 
 let model_of = function
   | "C14" -> c14_model
+  | "C11" -> c11_model
   | p -> failwith ("no model for " ^ p)
 let judge_of = function
   | "C14" -> judge_eq c14_spec
+  | "C11" -> judge_eq c11_spec
   | p -> failwith ("no judge for " ^ p)
 
 let read_lines ic = let rec go acc = match input_line ic with l -> go (l :: acc) | exception End_of_file -> List.rev acc in go []
